@@ -415,7 +415,8 @@ def model(spec):
             return {"wires": out}, out != x
     else:
         raise KeyError(t)
-    return {"regs": regs, "domain": domain, "f": f, "fourier": fourier, "classify": classify}
+    instance_class = "one-bit-x" if t == "SignedOutSquare" and size["x_wires"] == 1 else None
+    return {"regs": regs, "domain": domain, "f": f, "fourier": fourier, "classify": classify, "instance_class": instance_class}
 
 
 def _w(w):
@@ -567,6 +568,8 @@ def check(spec):
     if len({_index(o, regs) for o, _ in images}) != len(images):
         raise RuntimeError("model is not injective on the domain")
     feats = {"template": t}
+    if "output_wires_zeroed" in spec["a"]:
+        feats["zeroed"] = bool(spec["a"]["output_wires_zeroed"])
     labels = [t, f"{t}:wires={len(order)}", f"domain<={2 ** int(np.ceil(np.log2(max(len(domain), 1))))}"]
     routes = _routes(op)
     if not routes and not op.has_matrix:
@@ -577,14 +580,24 @@ def check(spec):
     for rname, thunk in routes:
         try:
             raw = thunk()
+            qs = _queue_sig(raw)
+            if qs in seen and not any(type(o).__name__ == "Allocate" for o in raw):
+                labels.append(f"{t}/{rname}=same-queue")
+                continue
+            seen.append(qs)
+            leaves, dyn = F.flatten(raw)
         except qp.exceptions.DecompositionUndefinedError:
             raise Reject(f"{t}: decomposition undefined for this configuration") from None
-        qs = _queue_sig(raw)
-        if qs in seen and not any(type(o).__name__ == "Allocate" for o in raw):
-            labels.append(f"{t}/{rname}=same-queue")
-            continue
-        seen.append(qs)
-        leaves, dyn = F.flatten(raw)
+        except Exception as e:  # noqa: BLE001
+            from pv.engine import _origin
+
+            origin, where = _origin(e.__traceback__)
+            if origin != "sut":
+                raise
+            icls = md.get("instance_class") or "other"
+            raise Viol("decomposition-raises", f"{t} {spec['a']} regs={spec['r']} via {rname}: {type(e).__name__}: {e} ({where})",
+                       sig=f"{t}/{rname}" + ("" if icls == "other" else ":" + icls),
+                       features=dict(feats, input_class=icls, route=rname, exc=type(e).__name__, where=where)) from None
         if n_leaves is None:
             n_leaves = len(leaves)
         dynw = [d["wire"] for d in dyn]
